@@ -117,6 +117,11 @@ impl Log {
             if now > fr.saturating_add(t) {
                 self.late_samples += 1;
                 self.worst_late_ns = self.worst_late_ns.max(now - fr - t);
+                // a call that has begun hundreds of iterations after its deadline ignores it:
+                // unwind instead of running on to the query budget
+                if self.late_samples > 300 {
+                    std::panic::panic_any(BudgetTrip);
+                }
             }
         }
     }
